@@ -386,6 +386,33 @@ func main() {
 	close(next)
 	wg.Wait()
 
+	// correspondence data for the Coq model (engine xml of mvmodel): the first cases of the run, regenerated from their seeds
+	{
+		fin, _ := os.Create(filepath.Join(*out, "cases.in"))
+		fout, _ := os.Create(filepath.Join(*out, "cases.go.out"))
+		nm := *n
+		if nm > 6000 && *tier != "thorough" {
+			nm = 6000
+		}
+		if nm > 40000 {
+			nm = 40000
+		}
+		for i := 0; i < nm; i++ {
+			c := runCase(seeds[i], *known)
+			if len(c.input) > 20000 {
+				continue
+			}
+			a, b, hi, ho := modelLines(c.input, c.keep)
+			fmt.Fprintln(fin, a)
+			fmt.Fprintln(fout, b)
+			for k := range hi {
+				fmt.Fprintln(fin, hi[k])
+				fmt.Fprintln(fout, ho[k])
+			}
+		}
+		fin.Close()
+		fout.Close()
+	}
 	distinct := map[uint64]struct{}{}
 	bySig := map[string][]int{}
 	malformed := 0
